@@ -70,6 +70,9 @@ def run(run):
                         stats["shared_helper_rules"] += 1
                     else:
                         q = QG.random_query(rng, kinds=kinds, values=proj.values, depth=1, n_preds=rng.choice([0, 0, 1]), n_entities=1)
+                    while any("\n" in lx or "\r" in lx for lx in q.lexemes):
+                        # a literal that spans lines is the recorded finding of the rule-file readers (C18): not the subject here
+                        q = QG.random_query(rng, kinds=kinds, values=proj.values, depth=1, n_preds=rng.choice([0, 0, 1]), n_entities=1)
                     # now and then the header of an earlier rule of the ruleset, copied as it is (only the query differs)
                     r = GR.rule_file(rng, q, head=rng.choice(heads) if heads and rng.random() < 0.35 else None)
                     text, meta = r
@@ -87,7 +90,8 @@ def run(run):
             alone = []
             for rel, text, meta, q in order:
                 query = h.call(op="rule", text=text)["rule"]["query"]
-                rc, so, se = C.cli(["query", "--project", proj.dir, "--query", query, "--output", "json", "--disable-metrics"])
+                # the rule alone: the rule file handed to `query --query-file` (a process of its own)
+                rc, so, se = C.cli(["query", "--project", proj.dir, "--query-file", os.path.join(rdir, rel), "--output", "json", "--disable-metrics"])
                 raw = c18.last_json(so)
                 try:
                     js = json.loads(raw) if raw else None
